@@ -2554,7 +2554,7 @@ static void MakeCode_Z8(void) {
 }
 
 static void InitCode_Z8(void) {
-    RPVal = 0;
+    RPVal = RP0Val = RP1Val = 0;
 }
 
 static Boolean IsDef_Z8(void) {
